@@ -19,6 +19,7 @@ import (
 	"fmt"
 	"math"
 	"regexp"
+	"sort"
 	"strconv"
 	"strings"
 	"sync"
@@ -718,15 +719,22 @@ func MixArray(data []any) []any {
 
 func MixObject(data map[string]any) (map[string]any, error) {
 	mapper := make(map[string]any)
-	for key, item := range data {
+	// in the order of the keys: when a flattened name meets a key that is
+	// already there (db_host and db.host), the same one wins every time
+	keys := make([]string, 0, len(data))
+	for key := range data {
+		keys = append(keys, key)
+	}
+	sort.Strings(keys)
+	for _, key := range keys {
+		item := data[key]
 		if innerMap, ok := item.(map[string]any); ok {
 			rs, err := MixObject(innerMap)
 			if err != nil {
 				return nil, err
 			}
 			for innerKey, innerValue := range rs {
-				key := fmt.Sprintf("%s_%s", key, innerKey)
-				mapper[key] = innerValue
+				mapper[fmt.Sprintf("%s_%s", key, innerKey)] = innerValue
 			}
 			continue
 		}
